@@ -616,6 +616,15 @@ def run_scripted(sid, ctx):
 # ---------------------------------------------------------------------------
 
 
+def caller_chain(dump, marker):
+    """[(file, function)] of the thread whose stack goes through `marker` in a faulthandler dump (line numbers left out)"""
+    import re
+    for block in re.split(r"\n\s*\n", dump):
+        if marker in block:
+            return [(os.path.basename(m.group(1)), m.group(2)) for m in re.finditer(r'File "([^"]+)", line \d+ in (\S+)', block)]
+    return []
+
+
 def run_real(case, ctx):
     rng = harness.rng_for(ctx.seed, ID, "real", case["i"])
     backend = ["threading", "loky", "multiprocessing", "threading", "loky", "loky"][case["i"] % 6]
@@ -656,10 +665,28 @@ def run_real(case, ctx):
                            result_file=of, dump_stacks_at=(100, 20))
         if r["result"] is None:
             from checks.c01 import same_stacks
-            if r["timed_out"] and r["stacks"] and len(r["stacks"]) == 2 and same_stacks(r["stacks"]):
+            # hang witness: two stack dumps 20 s apart are identical - or (the caller's retrieval loop polls: its line numbers move)
+            # show the thread that makes the calls in the same chain of functions, inside the same call of the history, which
+            # normally takes milliseconds
+            prog = []
+            try:
+                prog = [json.loads(ln) for ln in open(of + ".progress")]
+            except (OSError, ValueError):
+                pass
+            open_call = next((p_["call"] for p_ in reversed(prog) if p_["ev"] == "start"), None)
+            if open_call is not None and any(p_["ev"] == "end" and p_["call"] == open_call for p_ in prog):
+                open_call = None
+            chains = [caller_chain(st, "c04_real.py") for st in (r["stacks"] or [])]
+            t_open = next((p_["t"] for p_ in reversed(prog) if p_["ev"] == "start" and p_["call"] == open_call), None)
+            # (the dumps are taken 100 s and 120 s after the child started; its first progress line is written within a second or two)
+            stuck = (len(chains) == 2 and open_call is not None and t_open is not None and t_open - prog[0]["t"] < 90
+                     and all(any(f == "parallel.py" for f, _ in ch) for ch in chains))
+            if r["timed_out"] and r["stacks"] and len(r["stacks"]) == 2 and (same_stacks(r["stacks"]) or stuck):
                 ctx.evaluated()
-                ctx.violation("nontermination:real-backend-hang", f"{backend} history did not terminate; identical stack dumps 20 s apart",
-                              dict(cfg=cfg, stack=r["stacks"][1][-2000:]))
+                c_open = hist[open_call] if open_call is not None and open_call < len(hist) else None
+                ctx.violation("nontermination:real-backend-hang", f"{backend} history did not terminate: call {open_call} ({c_open}) was still running after 120 s, "
+                                                                   f"the calling thread inside joblib.parallel in both stack dumps taken 100 s and 120 s after the start ({[fn for _, fn in (chains[0] if chains else [])][:6]})",
+                              dict(cfg=cfg, stack=r["stacks"][1][-2000:], open_call=open_call))
             else:
                 ctx.inconclusive("real-backend-child-failed", dict(cfg=cfg, rc=r["rc"], err=r["err"][-600:]))
             return
